@@ -1574,6 +1574,88 @@ def outer_join(ctx, tag, atoms, meta, r, opts, ff):
 # --------------------------------------------------------------------------
 
 
+# --------------------------------------------------------------------------
+# writer stage: final model -> PQR lines, where record name and serial fuse / fields fill their columns
+
+
+def writer_stage(ctx, report=True):
+    """io.print_biomolecule_atoms + main.print_pqr driven the way non_trivial / main_driver do, on a
+    finished small model whose matched-atom list is made long enough (by repetition; the serial is
+    the list position) to pass serial 9999 and 99999, with ATOM and HETATM records on both sides of
+    the boundary. Every list entry must be written exactly once, in order."""
+    import argparse
+
+    from harness import builder as B
+    from pdb2pqr import io as pio
+    from pdb2pqr import main as pmain
+
+    pep = B.build_peptide(["SER", "GLY", "ASN"], chain="A")
+    wat = B.waters(3, around=pep, chain="W")
+    r = B.run_pdb2pqr(B.to_pdb(pep + wat), ["--ff=AMBER", "--keep-chain"], workdir=ctx.scratch_dir())
+    if r["exc"] is not None or r["result"] is None:
+        return 0
+    bio = r["result"][2]
+    ats = [a for a in bio.atoms]
+    atom_t = [a for a in ats if a.type == "ATOM"]
+    het_t = [a for a in ats if a.type == "HETATM"]
+    if not atom_t or not het_t:
+        return 0
+    nfail = 0
+    for total in (10030, 100030):
+        for tailkind in ("HETATM", "ATOM", "mixed"):
+            if total > 20000 and tailkind != "mixed" and not ctx.thorough:
+                continue
+            boundary = 9990 if total < 20000 else 99990
+            head = (atom_t * (boundary // len(atom_t) + 1))[:boundary]
+            n_tail = total - boundary
+            if tailkind == "HETATM":
+                tail = (het_t * (n_tail // len(het_t) + 1))[:n_tail]
+            elif tailkind == "ATOM":
+                tail = (atom_t * (n_tail // len(atom_t) + 1))[:n_tail]
+            else:
+                tail = [(het_t if k % 2 == 0 else atom_t)[k % min(len(het_t), len(atom_t))] for k in range(n_tail)]
+            lst = head + tail
+            want = [(a.type, a.name) for a in lst]
+            for ws in (False, True):
+                for keep in (True, False):
+                    for is_cif in (False, True) if ws else (False,):
+                        lines = pio.print_biomolecule_atoms(lst, keep)
+                        outp = ctx.scratch_dir() / "writer.pqr"
+                        ns = argparse.Namespace(output_pqr=str(outp), whitespace=ws)
+                        pmain.print_pqr(args=ns, pqr_lines=lines, header_lines="", missing_lines=[], is_cif=is_cif)
+                        got = []
+                        for ln in outp.read_text().splitlines():
+                            rec = ln[:6].strip()  # the record field is the first six columns, in both layouts
+                            if rec in ("ATOM", "HETATM"):
+                                got.append((rec, (ln[13:17] if ws else ln[12:16]).strip()))
+                        ctx.evaluated(("writer", total, tailkind, ws, keep, is_cif), True)
+                        if got != want:
+                            k = next((i for i, (g, w_) in enumerate(zip(got + [None] * len(want), want)) if g != w_), len(got))
+                            nfail += 1
+                            if report:
+                                ctx.fail({"site": "main.print_pqr", "condition": "final-atom-not-written" if len(got) < len(want) else "written-records-differ",
+                                          "layout": ("whitespace" if ws else "fixed") + f"/{want[k][0]}/serial>={10 ** (len(str(k + 1)) - 1)}"},
+                                         f"{len(want)} matched atoms, {len(got)} ATOM/HETATM records written (whitespace={ws}, keep_chain={keep}); first difference at list position {k + 1}: {want[k]}",
+                                         {"writer": {"total": total, "tail": tailkind, "whitespace": ws, "keep_chain": keep, "is_cif": is_cif}, "tag": "writer-stage",
+                                          "args": ["--whitespace"] if ws else [], "pdb": r["pdb_text"] if "pdb_text" in r else B.to_pdb(pep + wat)})
+    if ctx.thorough:
+        try:
+            t1 = (core.REPO / "tests" / "data" / "1AFS.pdb").read_text()
+            rr = B.run_pdb2pqr(t1, ["--ff=AMBER", "--whitespace"], workdir=ctx.scratch_dir())
+            if rr["exc"] is None and rr["result"] is not None:
+                nat = len(rr["result"][2].atoms) - len(rr["result"][0] or [])
+                nrec = sum(1 for ln in (rr["pqr_text"] or "").splitlines() if ln[:6].strip() in ("ATOM", "HETATM"))
+                ctx.evaluated(("writer", "1AFS --whitespace"), True)
+                if nrec != nat:
+                    nfail += 1
+                    ctx.fail({"site": "main.print_pqr", "condition": "final-atom-not-written", "layout": "whitespace/end-to-end"},
+                             f"1AFS --whitespace: {nat} matched atoms, {nrec} records written", {"tag": "1AFS", "args": ["--ff=AMBER", "--whitespace"], "pdb": "tests/data/1AFS.pdb"})
+        except OSError:
+            pass
+    return nfail
+
+
+
 def entry_point_runs(ctx):
     """The same input through main_driver (builder), pdb2pqr.main.run_pdb2pqr(list) and the
     command line: identical ATOM/HETATM lines."""
@@ -1797,6 +1879,24 @@ def run(ctx):
         ctx.count("ff:" + ff)
         process(r, tag, atoms, meta, opts, ff, key)
 
+    # process history: the first planned run again at the end of this process must give the same PQR text
+    if plan and first_run.get("pqr") is not None:
+        tag0, atoms0, meta0, opts0, ff0, _v = plan[0]
+        r2 = run_structure(ctx, atoms0, opts0, ff0, phrng=random.Random(f"ph:{ctx.seed}:{tag0}"), text=meta0.get("text"), extra=first_run["extra"], monitor=False)
+        ctx.evaluated(("history", tag0), True)
+        if (r2["pqr_text"] or "") != first_run["pqr"]:
+            ctx.fail({"site": "process-history", "condition": "same-input-different-output"},
+                     f"{tag0} {opts0}: the PQR of a second identical run in the same process differs from the first", {"tag": tag0, "args": r2["args"], "pdb": r2["pdb_text"]})
+    # entry points: main_driver(Namespace) is used above; run_pdb2pqr(list) and the command line must agree with it
+    try:
+        entry_point_runs(ctx)
+    except Exception as e:  # noqa: BLE001
+        ctx.broke("harness-error", f"entry point runs: {type(e).__name__}: {e}", "")
+    # writer stage across the serial boundaries
+    try:
+        writer_stage(ctx)
+    except Exception as e:  # noqa: BLE001
+        ctx.broke("harness-error", f"writer stage: {type(e).__name__}: {e}", "")
     # driven walks: real objects taken to every reachable ordered name state of the model
     try:
         if driven_walks(ctx, ginfo, process):
@@ -1892,6 +1992,10 @@ def replay(ctx, data):
     from harness import builder as B
 
     case = data.get("case") or {}
+    if case.get("writer"):
+        n = writer_stage(ctx, report=False)
+        print("replay: writer stage", "FAILS" if n else "passes", f"({n} layouts with dropped / different records)")
+        return 1 if n else 0
     if "pdb" not in case or "args" not in case:
         print("replay: case has no input (proof/correspondence record)")
         return 0
